@@ -349,6 +349,23 @@ func run(c *core.Ctx) {
 		if o.reordered {
 			c.Inc("ops_chain_calls_reordered")
 		}
+		if len(o.sel) > 0 {
+			c.Inc("ops_select_form_" + o.selForm)
+		}
+		if o.omitJoin != "" {
+			c.Inc("ops_omit_one_comma_joined_string")
+			for _, n := range o.omit[1:] {
+				if n.fi >= 0 && !n.byCol && strings.Contains(o.omitJoin, " ") {
+					c.Inc("ops_omit_comma_joined_blank_before_field_name")
+					break
+				}
+			}
+		}
+		for _, n := range append(append([]nameRef{}, o.sel...), o.omit...) {
+			if n.qual {
+				c.Inc("names_table_qualified_column")
+			}
+		}
 		if nDefKept > 0 && len(o.recs) > 1 {
 			c.Inc("ops_batch_default_field_value_kept_out")
 		}
@@ -374,7 +391,9 @@ func run(c *core.Ctx) {
 			spell := ""
 			for _, n := range append(append([]nameRef{}, o.sel...), o.omit...) {
 				if n.fi >= 0 {
-					if n.byCol {
+					if n.qual {
+						spell += "q"
+					} else if n.byCol {
 						spell += "c"
 					} else {
 						spell += "f"
@@ -389,13 +408,29 @@ func run(c *core.Ctx) {
 				dh = append(dh, t)
 			}
 			sort.Strings(dh)
-			c.Shape(o.kind, o.tform, o.selMode, spell, ph, fm, nMust > 0, nRefresh > 0, nNarrow > 0, nZero > 0, len(p.target) > 1, m.pk.k.name, len(m.pks), dh, o.dropKey, o.reordered)
+			c.Shape(o.kind, o.tform, o.selMode, spell, ph, fm, nMust > 0, nRefresh > 0, nNarrow > 0, nZero > 0, len(p.target) > 1, m.pk.k.name, len(m.pks), dh, o.dropKey, o.reordered, listForm(o))
 			if c.WantSample() && i == 5 {
 				c.Sample(map[string]interface{}{"model": m.decls(), "operation": desc, "target_rows": p.target, "sql": sqlOf(evs),
 					"checked": fmt.Sprintf("%d written cells, %d denied, %d narrowed, %d refreshed, %d rows outside the target unchanged", nMust, nDenied, nNarrow, nRefresh, len(m.rows)-len(p.target))})
 			}
 		}
 	}
+}
+
+// listForm: how the lists of names were handed to Select / Omit (part of the case shape).
+func listForm(o *op) string {
+	out := ""
+	if len(o.sel) > 0 {
+		out = "S:" + o.selForm
+	}
+	if len(o.omit) > 0 {
+		if o.omitJoin != "" {
+			out += " O:joined" + strings.ReplaceAll(o.omitJoin, " ", "_")
+		} else {
+			out += " O:variadic"
+		}
+	}
+	return out
 }
 
 // recOfKey: the record of a create-type operation that produced the new row k (records are
